@@ -11,6 +11,18 @@ extern "C" {
 typedef std::vector<unsigned char> vec;
 using ascon::byte_array;
 
+/* allocation-failure injection: while armed, the k-th allocation through operator new / new[] throws std::bad_alloc (what std::vector answers with the strong guarantee: the value is unchanged) */
+#include <new>
+#include <cstdlib>
+static long alloc_countdown = 0; static long alloc_refused = 0;
+static void *vp_alloc(size_t n) { if (alloc_countdown > 0 && --alloc_countdown == 0) { alloc_refused++; throw std::bad_alloc(); } void *p = malloc(n ? n : 1); if (!p) throw std::bad_alloc(); return p; }
+void *operator new(size_t n) { return vp_alloc(n); }
+void *operator new[](size_t n) { return vp_alloc(n); }
+void operator delete(void *p) noexcept { free(p); }
+void operator delete[](void *p) noexcept { free(p); }
+void operator delete(void *p, size_t) noexcept { free(p); }
+void operator delete[](void *p, size_t) noexcept { free(p); }
+#define OFF (alloc_countdown = 0)   /* the injection covers the byte_array half of an operation only; the std::vector model then runs undisturbed */
 static volatile int asan_hit;
 extern "C" void __asan_on_error(void) { asan_hit = 1; }
 
@@ -37,23 +49,23 @@ static void apply(world &w, const op &o)
 {
     byte_array &a = w.a[o.x]; vec &m = w.m[o.x];
     switch (o.k) {
-    case O_CONS: a = byte_array(o.n, 7); m = vec(o.n, 7); break;
-    case O_ASSIGN: a = w.a[o.y]; m = w.m[o.y]; break;
-    case O_COPYCONS: { byte_array t(w.a[o.y]); vec tm(w.m[o.y]); a = t; m = tm; break; }
-    case O_WRITE: { size_t i = o.n == 0 ? 0 : m.size() - 1; a[i] = 9; m[i] = 9; break; }
+    case O_CONS: a = byte_array(o.n, 7); OFF; m = vec(o.n, 7); break;
+    case O_ASSIGN: a = w.a[o.y]; OFF; m = w.m[o.y]; break;
+    case O_COPYCONS: { byte_array t(w.a[o.y]); a = t; OFF; vec tm(w.m[o.y]); m = tm; break; }
+    case O_WRITE: { size_t i = o.n == 0 ? 0 : m.size() - 1; a[i] = 9; OFF; m[i] = 9; break; }
     case O_READ: { size_t i = o.n == 0 ? 0 : m.size() - 1; const byte_array &ca = a; itersum += ca[i]; itersum += a[i]; break; }
-    case O_HOLDREF: { unsigned char &r = a[0]; a[1] = 3; r = 4; unsigned char &mr = m[0]; m[1] = 3; mr = 4; break; }
-    case O_RESIZE: a.resize(o.n); m.resize(o.n); break;
-    case O_RESERVE: a.reserve(o.n); m.reserve(o.n); break;
-    case O_PUSH: a.push_back(5); m.push_back(5); break;
-    case O_POP: a.pop_back(); m.pop_back(); break;
-    case O_CLEAR: a.clear(); m.clear(); break;
-    case O_DATAW: a.data()[0] = 11; m.data()[0] = 11; break;
+    case O_HOLDREF: { unsigned char &r = a[0]; a[1] = 3; r = 4; OFF; unsigned char &mr = m[0]; m[1] = 3; mr = 4; break; }
+    case O_RESIZE: a.resize(o.n); OFF; m.resize(o.n); break;
+    case O_RESERVE: a.reserve(o.n); OFF; m.reserve(o.n); break;
+    case O_PUSH: a.push_back(5); OFF; m.push_back(5); break;
+    case O_POP: a.pop_back(); OFF; m.pop_back(); break;
+    case O_CLEAR: a.clear(); OFF; m.clear(); break;
+    case O_DATAW: a.data()[0] = 11; OFF; m.data()[0] = 11; break;
     case O_ENDFIRST: {  /* end() taken before begin(): both must delimit this value's own elements, and a write through end()-1 must change this value only */
                    byte_array::iterator e = a.end(); byte_array::iterator b = a.begin(); if ((size_t)(e - b) != m.size()) iterbad |= 2;
                    const byte_array &ca = a; if ((size_t)(ca.end() - ca.begin()) != m.size() || ca.begin() != ca.cbegin() || ca.end() != ca.cend()) iterbad |= 2;
-                   if (m.size()) { *(e - 1) = 13; m.back() = 13; } break; }
-    case O_BEGINW: { *a.begin() = 12; *m.begin() = 12; break; }
+                   if (m.size()) { *(e - 1) = 13; OFF; m.back() = 13; } OFF; break; }
+    case O_BEGINW: { *a.begin() = 12; OFF; *m.begin() = 12; break; }
     case O_ITER: { long s1 = 0, s2 = 0; for (byte_array::iterator it = a.begin(); it != a.end(); ++it) s1 += *it; for (vec::iterator it = m.begin(); it != m.end(); ++it) s2 += *it;
                    const byte_array &ca = a; for (byte_array::const_iterator it = ca.cbegin(); it != ca.cend(); ++it) s1 -= *it; itersum += s1 - s2 + s2; if (s1 != 0) iterbad |= 1; break; }
     }
@@ -122,7 +134,7 @@ int main(int argc, char **argv)
     }
     std::set<std::string> seen; std::deque<std::vector<op> > frontier;
     { world w; seen.insert(canon(w)); frontier.push_back(std::vector<op>()); }
-    long transitions = 0, fails = 0; size_t maxd = 0; std::vector<op> lasth;
+    long transitions = 0, fails = 0, faulted = 0; size_t maxd = 0; std::vector<op> lasth;
     while (!frontier.empty()) {
         std::vector<op> h = frontier.front(); frontier.pop_front();
         if (h.size() > maxd) maxd = h.size();
@@ -140,6 +152,18 @@ int main(int argc, char **argv)
             delete w;
             if (asan_hit) { if (fails++ < 40) hx_fail("byte_array:memory-error:destructor", "AddressSanitizer report while observing/destroying after history [%s]", describe(nh).c_str()); continue; }
             if (seen.insert(k).second) { lasth = nh; if (nh.size() < (size_t)depth) frontier.push_back(nh); }
+            /* the same last operation with the 1st, 2nd or 3rd allocation it asks for refused (histories of up to 2 earlier operations): either it completes, or it throws and the
+             * value is what it was; the array then takes 24 more bytes and a resize, all compared with the vector again (a capacity claimed but not owned shows up here) */
+            if (h.size() <= 2) for (long kth = 1; kth <= 3; kth++) {
+                world *w2 = new world(); for (size_t i = 0; i < h.size(); i++) apply(*w2, h[i]);
+                asan_hit = 0; long before = alloc_refused; bool threw = false;
+                alloc_countdown = kth; try { apply(*w2, alphabet[ai]); } catch (const std::bad_alloc &) { threw = true; } OFF;
+                if (alloc_refused == before) { delete w2; break; }      /* the operation asks for fewer allocations than that */
+                const char *why2 = observe(*w2); faulted++;
+                if (!why2 && !asan_hit) { byte_array &fa = w2->a[alphabet[ai].x]; vec &fm = w2->m[alphabet[ai].x]; for (int q = 0; q < 24; q++) { fa.push_back((unsigned char)q); fm.push_back((unsigned char)q); } fa.resize(fa.size() + 9); fm.resize(fm.size() + 9); why2 = observe(*w2); }
+                if (why2 || asan_hit) { if (fails++ < 40) hx_fail("byte_array:allocation-failure", "allocation %ld refused during the last operation of history [%s] (%s): %s", kth, describe(nh).c_str(), threw ? "std::bad_alloc thrown" : "no exception", why2 ? why2 : "memory error afterwards"); }
+                delete w2;
+            }
         }
     }
     /* many holders of one value: 2, 255, 256, 257, 300, 65537 copies; writing through one of them (every way of writing) leaves all the others as they were */
@@ -155,6 +179,7 @@ int main(int argc, char **argv)
       } }
     if (iterbad & 2) hx_fail("byte_array:semantics:iterate", "end() - begin() is not size(), or the const iterators disagree");
     if (iterbad & 1) hx_fail("byte_array:semantics:iterate", "iterator and const_iterator sums disagree");
+    hx_stat("fault_plans", faulted);
     hx_stat("states", (long long)seen.size()); hx_stat("transitions", transitions); hx_stat("traces_validated", transitions);
     printf("SETMAX max_depth %zu\n", maxd + 1);
     hx_sample("byte_array vs std::vector: %d values, alphabet of %zu operations, BFS to depth %d: %zu states, %ld transitions", NV, alphabet.size(), depth, seen.size(), transitions);
